@@ -19,6 +19,7 @@ res=$(cd /verif && VERIF_REPO=$d/repo VERIF_EVIDENCE_DIR=$d/evidence VERIF_REPLA
 viol=$(echo "$res" | grep -c '^VIOLATION')
 first=$(echo "$res" | grep -B1 '^VIOLATION' | head -1 | cut -c1-300)
 harn=$(echo "$res" | grep -c HARNESS)
+[ -f $out/meta.json ] && cp $out/meta.json $d/meta.old
 cat > $out/meta.json <<EOT
 {"id": "$id", "property": "$prop", "source": "independent sub-agent given only the property text and a scratch worktree",
  "baseline_with_change": "$base", "demo_exit_unchanged": $demo_clean, "demo_exit_with_change": $demo_mut,
@@ -26,5 +27,16 @@ cat > $out/meta.json <<EOT
  "detected": $([ $viol -gt 0 ] && echo true || echo false),
  "first_report": $(echo "$first" | /venv/bin/python -c 'import json,sys;print(json.dumps(sys.stdin.read().strip()))')}
 EOT
+if [ -f $d/meta.old ]; then /venv/bin/python - $d/meta.old $out/meta.json <<'PYEOF'
+import json,sys
+o=json.load(open(sys.argv[1])); m=json.load(open(sys.argv[2]))
+for k in ('needs_to_manifest','breaks_property','round','note','detected_by_other_property_check'):
+    if k in o: m[k]=o[k]
+if o.get('detected') is False and m.get('detected'):
+    m['history']='missed by the check as it stood when the seed was produced; detected after the check was strengthened'
+elif 'history' in o: m['history']=o['history']
+json.dump(m,open(sys.argv[2],'w'),indent=1)
+PYEOF
+fi
 echo "SEED $id prop=$prop baseline=[$base] demo(clean/mut)=$demo_clean/$demo_mut violations=$viol harness=$harn detected=$([ $viol -gt 0 ] && echo yes || echo NO) :: $first"
 rm -rf $d
